@@ -21,7 +21,7 @@ NOT_DECIDED = {
  "C14": "the file copies; components of the checkpoint and restore protocols are opaque; readers concurrent with a restore",
  "C15": "faults outside the WAL (table, manifest, value log), short writes; F25 open; partial effects of a failing memtable apply",
  "C16": "CRC detection capability (assumed)",
- "C18": "tree-level algorithms (split, merge, redistribution, overflow chains; the root change in handle_splits): sampled by the driver only",
+ "C18": "tree-level algorithms (split, merge, redistribution, overflow chains): sampled by the driver only",
  "C19": "other processes, process death; the shutdown started by Drop for Tree: driver only",
 }
 rows = ["| Prop | Level | Units (Verus) | Kani complete | Bounded drivers (tier) | Not decided |", "|---|---|---|---|---|---|"]
